@@ -14,9 +14,11 @@
    graph[i+1] = set of edges on site i of the unit cell.  *)
 EXTENDS ModelDecl
 
-Edge(l, r, ops, s) == [l |-> l, r |-> r, ops |-> ops, s |-> s]
 KL == <<"IdL">>      \* all keys are tuples (TLC cannot compare a string with a tuple)
 KR == <<"IdR">>
+\* w: the edge carries the strength of a term (strengths of equal such edges are added, other edges are shared)
+Edge(l, r, ops, s) == [l |-> l, r |-> r, ops |-> ops, s |-> s, w |-> FALSE]
+EdgeW(l, r, ops, s) == [l |-> l, r |-> r, ops |-> ops, s |-> s, w |-> TRUE]
 Int3(z) == <<z[1], z[2], 0>>
 One3 == <<1, 0, 0>>
 NameSeq(n) == IF n = "Id" THEN <<>> ELSE <<n>>
@@ -96,10 +98,10 @@ StringLR(L, i, j, k, key, str, acc) ==
 
 \* edges (as pairs <<site, edge>>) of one stored term
 TermEdges(L, t) ==
-    IF t.kind = "on" THEN {<<t.i, Edge(KL, KR, t.ops, t.s)>>}
+    IF t.kind = "on" THEN {<<t.i, EdgeW(KL, KR, t.ops, t.s)>>}
     ELSE LET st == StringLR(L, t.i, t.j, t.i + 1, LeftKey(t), t.str, {})
          IN {<<t.i, Edge(KL, LeftKey(t), t.opi, One3)>>} \cup st.edges
-            \cup {<<t.j % L, Edge(st.key, KR, t.opj, t.s)>>}
+            \cup {<<t.j % L, EdgeW(st.key, KR, t.opj, t.s)>>}
 
 \* strengths of parallel edges with the same operator are *added* (dictionary entries d3[op_j] += strength,
 \* onsite_terms[i][op] += strength); the opening edge and the string edges are shared (skip_existing)
@@ -110,12 +112,14 @@ Merge(pairs) ==      \* pairs: sequence of <<site, edge>> (with multiplicity)
     LET n == Len(pairs)
         Same(a, b) == pairs[a][1] = pairs[b][1] /\ pairs[a][2].l = pairs[b][2].l /\ pairs[a][2].r = pairs[b][2].r
                       /\ pairs[a][2].ops = pairs[b][2].ops
-        Closing(a) == pairs[a][2].r = KR
+        Closing(a) == pairs[a][2].w
         reps == {a \in 1..n : \A b \in 1..(a - 1) : ~Same(a, b)}
     IN {<<pairs[a][1],
           IF Closing(a) THEN [pairs[a][2] EXCEPT !.s = Sum3({<<b, pairs[b][2].s>> : b \in {x \in 1..n : Same(a, x)}})]
           ELSE pairs[a][2]>> : a \in reps}
 
+RECURSIVE ConcatG(_, _)
+ConcatG(ss, n) == IF n = 0 THEN <<>> ELSE ConcatG(ss, n - 1) \o ss[n]
 RECURSIVE SetToSeqG(_)
 SetToSeqG(S) == IF S = {} THEN <<>> ELSE LET x == CHOOSE y \in S : TRUE IN <<x>> \o SetToSeqG(S \ {x})
 RECURSIVE PairsOf(_, _, _)
@@ -150,7 +154,96 @@ ExpEdges(c, d, nr, expl, conj) ==
                                         <<i, Edge(KL, label, oi, lam)>>}
                          ELSE {<<i, Edge(label, label, str, One3)>>}) : i \in (first + 1)..(lastS - 1)}
 
-Supported(d) == d.kind = "onsite" \/ (d.kind = "coupling") \/ d.kind = "expdecay"
+-----------------------------------------------------------------------------
+\* multi-site couplings (MultiCouplingTerms): the term is split at the site switchLR; operators left of it are inserted
+\* from the left with keys ("left", i, op, str, j, op, str, ...), operators right of it from the right (site indices
+\* shifted so that the last operator lies in the first unit cell) with keys ("right", ...); one edge at switchLR
+\* connects the two key chains and carries the strength.  Mirrored for declarations whose operators are written in
+\* ascending site order on a chain with a one-site unit cell basis (what PropMulti / PropMultiLong generate for chains).
+SwOf(d) == IF "sw" \in DOMAIN d THEN d.sw ELSE "middle_i"
+OrderedMulti(c, d) == /\ d.kind = "multi" /\ c.Ly = 1 /\ Nu(c) = 1 /\ (Infinite(c) \/ c.bcx = "open")
+                      /\ \A k \in 1..(Len(d.ops) - 1) : d.ops[k][2][1] < d.ops[k + 1][2][1]
+
+RECURSIVE StringRL(_, _, _, _, _, _, _)
+StringRL(L, j, i, k, key, str, acc) ==       \* add_string_right_to_left(j, i, key, str): sites j > k > i, going down
+    IF k <= i THEN [edges |-> acc, key |-> key]
+    ELSE LET keyLn == IF (j - k) % L = 0 THEN key \o <<k, str, str>> ELSE key
+         IN StringRL(L, j, i, k - 1, keyLn, str, acc \cup {<<k % L, Edge(keyLn, key, NameSeq(str), One3)>>})
+
+\* stored form of one multi-site term: sites (ascending), operators (Seq of names each, JW multiplied in), strings
+StoredMulti(c, d, bx, expl, conj) ==
+    LET n == Len(d.ops)
+        raw == [k \in 1..n |-> MpsIdx(c, bx + d.ops[k][2][1] - BoxMin(d, 1), 0, 0)]
+        sh == IF Infinite(c) THEN (raw[1] \div NCell(c)) * NCell(c) ELSE 0
+        site == [k \in 1..n |-> raw[k] - sh]
+        ty == c.uc[1]
+        name == [k \in 1..n |-> IF conj THEN HcName(d.ops[k][1]) ELSE d.ops[k][1]]
+        nf == Cardinality({k \in 1..n : NeedsJW(ty, name[k])})
+        \* the conjugate is declared in reversed order; sorting it back by site swaps every pair of fermionic operators
+        sign == IF conj /\ ((nf * (nf - 1)) \div 2) % 2 = 1 THEN -1 ELSE 1
+        jwRight == [k \in 1..n |-> Cardinality({m \in 1..k : NeedsJW(ty, name[m])}) % 2 = 1]
+        ops == [k \in 1..n |-> IF nf > 0 /\ jwRight[k] THEN <<name[k], "JW">> ELSE <<name[k]>>]
+        str == [k \in 1..(n - 1) |-> IF nf > 0 /\ jwRight[k] THEN "JW" ELSE "Id"]
+        z0 == StrengthAt(d.s, bx % ShapeX(c, d), 0)
+        z == GScale(sign, IF conj THEN GConj(z0) ELSE z0)
+        sw == IF SwOf(d) = "middle_op" THEN site[(n \div 2) + 1] ELSE (site[1] + site[n] + 1) \div 2
+    IN [site |-> site, ops |-> ops, str |-> str, sw |-> sw, s |-> HalfOrFull(expl, d.hc, z),
+        shift |-> site[n] - (site[n] % NCell(c))]
+
+RECURSIVE LeftChain(_, _, _, _, _)
+LeftChain(L, t, k, key, acc) ==     \* operators 1..k-1 are inserted, `key` is the key right of operator k-1
+    IF k > Len(t.site) \/ t.site[k] >= t.sw
+    THEN (IF k = 1 THEN [edges |-> acc, key |-> KL]
+          ELSE LET st == StringLR(L, t.site[k - 1], t.sw, t.site[k - 1] + 1, key, t.str[k - 1], {})
+               IN [edges |-> acc \cup st.edges, key |-> st.key])
+    ELSE IF k = 1
+    THEN LET k1 == <<"left", t.site[1], t.ops[1], t.str[1]>>
+         IN LeftChain(L, t, 2, k1, acc \cup {<<t.site[1] % L, Edge(KL, k1, t.ops[1], One3)>>})
+    ELSE LET st == StringLR(L, t.site[k - 1], t.site[k], t.site[k - 1] + 1, key, t.str[k - 1], {})
+             kf == st.key \o <<t.site[k], t.ops[k], t.str[k]>>
+         IN LeftChain(L, t, k + 1, kf, acc \cup st.edges \cup {<<t.site[k] % L, Edge(st.key, kf, t.ops[k], One3)>>})
+
+RECURSIVE RightChain(_, _, _, _, _)
+RightChain(L, t, k, key, acc) ==    \* operators k+1..n are inserted (from the right), `key` is the key left of operator k+1
+    LET n == Len(t.site)
+        r(m) == t.site[m] - t.shift
+    IN IF k < 1 \/ t.site[k] <= t.sw
+       THEN (IF k = n THEN [edges |-> acc, key |-> KR]
+             ELSE LET st == StringRL(L, r(k + 1), t.sw - t.shift, r(k + 1) - 1, key, t.str[k], {})
+                  IN [edges |-> acc \cup st.edges, key |-> st.key])
+       ELSE IF k = n
+       THEN LET kn == <<"right", r(n), t.ops[n], t.str[n - 1]>>
+            IN RightChain(L, t, n - 1, kn, acc \cup {<<r(n) % L, Edge(kn, KR, t.ops[n], One3)>>})
+       ELSE LET st == StringRL(L, r(k + 1), r(k), r(k + 1) - 1, key, t.str[k], {})
+                kf == st.key \o <<r(k), t.ops[k], t.str[k - 1]>>
+            IN RightChain(L, t, k - 1, kf, acc \cup st.edges \cup {<<r(k) % L, Edge(kf, st.key, t.ops[k], One3)>>})
+
+MultiTermEdges(L, t) ==
+    LET n == Len(t.site)
+        lc == LeftChain(L, t, 1, KL, {})
+        rc == RightChain(L, t, n, KR, {})
+        atOp == {k \in 1..n : t.site[k] = t.sw}
+        \* the operator on the switch site, or the string of the segment that contains it
+        opSw == IF atOp # {} THEN t.ops[CHOOSE k \in atOp : TRUE]
+                ELSE NameSeq(t.str[CHOOSE k \in 1..(n - 1) : t.site[k] < t.sw /\ t.sw < t.site[k + 1]])
+    IN lc.edges \cup rc.edges \cup {<<t.sw % L, EdgeW(lc.key, rc.key, opSw, t.s)>>}
+
+MultiStored(c, d, expl) ==
+    LET nx == CellBoxX(c, d)
+        base == [b \in 1..nx |-> StoredMulti(c, d, b - 1, expl, FALSE)]
+        conj == [b \in 1..nx |-> StoredMulti(c, d, b - 1, expl, TRUE)]
+    IN IF d.hc /\ ~expl THEN base \o conj ELSE base
+RECURSIVE MultiPairs(_, _, _, _)
+MultiPairs(c, ds, n, expl) ==
+    IF n = 0 THEN <<>> ELSE
+    MultiPairs(c, ds, n - 1, expl)
+    \o (IF ds[n].kind = "multi"
+        THEN LET ms == MultiStored(c, ds[n], expl)
+             IN ConcatG([m \in 1..Len(ms) |-> SetToSeqG(MultiTermEdges(NCell(c), ms[m]))], Len(ms))
+        ELSE <<>>)
+
+SupportedIn(c, d) == d.kind = "onsite" \/ d.kind = "coupling" \/ d.kind = "expdecay" \/ OrderedMulti(c, d)
+Supported(d) == SupportedIn(cfg, d)
 RECURSIVE ExpAll(_, _, _, _)
 ExpAll(c, ds, n, expl) ==
     IF n = 0 THEN {} ELSE
@@ -159,19 +252,17 @@ ExpAll(c, ds, n, expl) ==
           THEN ExpEdges(c, ds[n], 1000 + 2 * n, expl, FALSE) \cup (IF ds[n].hc /\ ~expl THEN ExpEdges(c, ds[n], 1001 + 2 * n, expl, TRUE) ELSE {})
           ELSE {})
 
-NonExp(ds) == SelectSeq(ds, LAMBDA d : d.kind # "expdecay")
+NonExp(ds) == SelectSeq(ds, LAMBDA d : d.kind \in {"onsite", "coupling"})
 \* add_missing_IdL_IdR: Id edges IdL -> IdL and IdR -> IdR on every site
 IdEdges(L) == UNION {{<<i, Edge(KL, KL, <<>>, One3)>>, <<i, Edge(KR, KR, <<>>, One3)>>} : i \in 0..(L - 1)}
 BuildGraph(c, ds, expl) ==
     LET L == NCell(c)
         ts == AllStored(c, NonExp(ds), Len(NonExp(ds)), expl)
-        all == Merge(PairsOf(L, ts, Len(ts))) \cup ExpAll(c, ds, Len(ds), expl) \cup IdEdges(L)
+        all == Merge(PairsOf(L, ts, Len(ts)) \o MultiPairs(c, ds, Len(ds), expl)) \cup ExpAll(c, ds, Len(ds), expl) \cup IdEdges(L)
     IN [i \in 1..L |-> SetToSeqG({p[2] : p \in {q \in all : q[1] = i - 1}})]
 
 -----------------------------------------------------------------------------
 \* automaton semantics on the window (the same definition as in TraceMPOGraph, which applies it to the real graph)
-RECURSIVE ConcatG(_, _)
-ConcatG(ss, n) == IF n = 0 THEN <<>> ELSE ConcatG(ss, n - 1) \o ss[n]
 ExtendG(acc, e, i) == [num |-> GMul(acc.num, <<e.s[1], e.s[2]>>), k |-> acc.k + e.s[3],
                        ops |-> acc.ops \o [m \in 1..Len(e.ops) |-> <<e.ops[m], i>>]]
 RECURSIVE PathsG(_, _, _, _, _, _)
